@@ -245,3 +245,5 @@ if __name__ == "__main__":
     for f in r["failures"]:
         f.pop("rendered", None)
     print(json.dumps(r, indent=1))
+    import shutil
+    shutil.rmtree(wd, ignore_errors=True)
